@@ -63,6 +63,8 @@ struct Tree {
 static Tree* g_tree;
 static const Scenario* g_sc;
 static int g_manifest_variant;
+static const char* g_msg_fresh = "C04: a command starts only after every producer of what it reads has brought it up to date";
+static const std::string* g_dyndep_override;     // when set: the text every dyndep-producing command writes instead of its spec's
 static bool g_dead;                    // the simulated process has died: nothing ninja does persists any more (C07)
 static void persistence_event() { if (verif_vfs_event()) g_dead = true; }     // one event counter for DiskInterface and stdio/unistd mutations
 
@@ -212,7 +214,7 @@ struct SymRunner : public CommandRunner {
       else r.snap.push_back(f->content);
       if (opt.check_inputs_fresh && ref_producer(reads[i]) && !ref_producer(reads[i])->phony) {
         bool ok = true; long want = clean_content(reads[i], &ok);
-        if (ok) VERIF_ASSERT(f && f->exists && f->content == want, "C04: a command starts only after every producer of what it reads has brought it up to date");
+        if (ok) VERIF_ASSERT(f && f->exists && f->content == want, g_msg_fresh);
       }
     }
     // directories of outputs and depfile exist, response file holds the declared content
@@ -259,8 +261,8 @@ struct SymRunner : public CommandRunner {
     for (size_t k = 0; k < e->outputs_.size(); k++) {
       const std::string& p = e->outputs_[k]->path();
       if (s && s->dyndep_text && k == 0) {
-        VFile* f = g_tree->find(p);
-        if (!((r.flags & KEEP_IF_SAME) && f && f->exists && f->is_text && f->text == s->dyndep_text)) g_tree->write_text(p, s->dyndep_text);
+        VFile* f = g_tree->find(p); std::string text = g_dyndep_override ? *g_dyndep_override : std::string(s->dyndep_text);
+        if (!((r.flags & KEEP_IF_SAME) && f && f->exists && f->is_text && f->text == text)) g_tree->write_text(p, text);
         continue;
       }
       long c = mix(ord, (int)k, r.snap, r.flags);
